@@ -28,6 +28,9 @@ pub struct VClockState {
     pub mono_ns: i128,
     /// CLOCK_REALTIME = mono_ns + real_offset_ns.
     pub real_offset_ns: i128,
+    /// If non-zero: CLOCK_REALTIME_COARSE returns the realtime value of the last kernel tick
+    /// (ticks every so many ns of monotonic time), as the kernel's coarse clocks do.
+    pub realtime_coarse_tick_ns: i128,
     /// Delays (ns) applied *before* answering successive reads; consumed front to back.
     pub pre_read_delays: std::collections::VecDeque<i128>,
     /// Log of every read.
@@ -67,6 +70,9 @@ impl VClock {
     pub fn install(&self) -> ClockGuard {
         let prev = CURRENT.with(|c| c.borrow_mut().replace(self.clone()));
         ClockGuard(prev)
+    }
+    pub fn set_realtime_coarse_tick(&self, tick_ns: i128) {
+        self.0.borrow_mut().realtime_coarse_tick_ns = tick_ns;
     }
     pub fn set(&self, mono_ns: i128, real_ns: i128) {
         let mut s = self.0.borrow_mut();
@@ -129,7 +135,7 @@ pub fn timespec_to_ns(ts: &libc::timespec) -> i128 {
     ts.tv_sec as i128 * NS + ts.tv_nsec as i128
 }
 
-fn is_realtime(id: libc::clockid_t) -> bool {
+pub fn is_realtime(id: libc::clockid_t) -> bool {
     id == libc::CLOCK_REALTIME || id == libc::CLOCK_REALTIME_COARSE || id == libc::CLOCK_TAI
 }
 
@@ -164,7 +170,9 @@ pub unsafe extern "C" fn clock_gettime(clk: libc::clockid_t, ts: *mut libc::time
             if let Some(d) = s.pre_read_delays.pop_front() {
                 s.mono_ns += d;
             }
-            let v = if is_realtime(clk) {
+            let v = if clk == libc::CLOCK_REALTIME_COARSE && s.realtime_coarse_tick_ns > 0 {
+                s.mono_ns.div_euclid(s.realtime_coarse_tick_ns) * s.realtime_coarse_tick_ns + s.real_offset_ns
+            } else if is_realtime(clk) {
                 s.mono_ns + s.real_offset_ns
             } else {
                 s.mono_ns
